@@ -25,7 +25,7 @@ PROP_MODULES = {
     'C01': ['props.step'] + _DEP, 'C02': ['props.step'] + _DEP, 'C03': ['props.step'] + _DEP, 'C04': ['props.step'] + _DEP,
     'C05': ['props.c05'] + _DEP, 'C06': ['props.step'] + _DEP, 'C07': ['props.step'] + _DEP, 'C08': ['props.c08'] + _DEP,
     'C09': ['props.step'] + _DEP, 'C10': ['props.c10', 'props.c17'], 'C11': ['props.c11'] + _DEP, 'C12': ['props.c12'] + _DEP,
-    'C13': ['props.c13'], 'C16': ['props.c16'], 'C17': ['props.c17'], 'C18': ['props.step'] + _DEP, 'C19': ['props.step'] + _DEP,
+    'C13': ['props.c13'], 'C14': ['props.c14'], 'C16': ['props.c16'], 'C17': ['props.c17'], 'C18': ['props.step'] + _DEP, 'C19': ['props.step'] + _DEP,
 }
 
 REPLAY_PY = os.environ.get('VERIF_REPLAY_PYTHON', '/venv/bin/python')
@@ -344,6 +344,7 @@ def cmd_check(prop, tier, jobs, only=None):
         'checker_cmd': 'python3-vt run.py check %s --tier %s' % (prop, tier),
         'trusted_base': ['z3-solver 4.x/5.x python API', 'pyvc AST->VC generator (/verif/pyvc)', 'spec/*.py oracle'],
         'units': len(units), 'paths': sum(r.get('paths', 0) for r in results),
+        'unit_cpu_seconds_when_computed': round(sum(r.get('wall', 0) for r in results), 1),
         'functions_under_contract': sorted(fn_under_contract),
         'functions_inlined_not_modular': sorted(inlined - fn_under_contract),
         'contract_uses_at_call_sites': contract_calls,
